@@ -125,7 +125,12 @@ func (m apiJSConv) Write(ctx context.Context, p *thrift.BinaryProtocol, field *t
 	case thrift.I08, thrift.I16, thrift.I32, thrift.I64:
 		iv, err := strconv.ParseInt(val, 10, 64)
 		if err != nil {
-			return err
+			// NOTICE: the number may be written in decimal or exponent form, as the native converter accepts
+			fv, ferr := strconv.ParseFloat(val, 64)
+			if ferr != nil {
+				return err
+			}
+			iv = int64(fv)
 		}
 		return p.WriteInt(t, int(iv))
 	case thrift.DOUBLE:
